@@ -217,7 +217,7 @@ theorem hasLimit_iff (cs : List (Cav B)) (s : UInt64) :
 /-- `GetCaveats[*MaxValidity]` finds every limit, however nested, and nothing else -/
 theorem getCaveats_maxValidity (cs : List (Cav B)) (c : Cav B) :
     c ∈ getCaveats Cav.isMaxValidity cs ↔ ∃ s, c = Cav.maxValidity s ∧ HasLimit cs s := by
-  rw [mem_getCaveats]
+  rw [authcav_mem_getCaveats]
   constructor
   · rintro ⟨hp, hn⟩
     cases c <;> simp [Cav.isMaxValidity] at hp
@@ -246,11 +246,11 @@ theorem getMaxValidity_min (cs : List (Cav B)) :
   have hm : m = minFold (maxValidityDurations cs) GoTime.maxDuration := rfl
   rw [← hm] at g1 g2 g3
   have lower : ∀ s, HasLimit cs s → m ≤ GoTime.durationOfSecs s := fun s hs =>
-    g2 _ ((mem_maxValidityDurations cs _).mpr ⟨s, hs, rfl⟩)
+    g2 _ ((authcav_mem_maxValidityDurations cs _).mpr ⟨s, hs, rfl⟩)
   have attained : m = GoTime.maxDuration ∨ ∃ s, HasLimit cs s ∧ m = GoTime.durationOfSecs s := by
     rcases g3 with g3 | g3
     · exact Or.inl g3
-    · exact Or.inr ((mem_maxValidityDurations cs _).mp g3)
+    · exact Or.inr ((authcav_mem_maxValidityDurations cs _).mp g3)
   have flag : present = true ↔ ∃ s, HasLimit cs s := by
     have hp : present = (m != GoTime.maxDuration) := rfl
     rw [hp]
@@ -296,12 +296,12 @@ theorem getMaxValidity_same_limits (cs cs' : List (Cav B))
     obtain ⟨g1, g2, g3⟩ := minFold_spec (maxValidityDurations cs') GoTime.maxDuration
     apply minFold_unique _ _ _ g1
     · intro d hd
-      obtain ⟨s, hs, rfl⟩ := (mem_maxValidityDurations cs _).mp hd
-      exact g2 _ ((mem_maxValidityDurations cs' _).mpr ⟨s, (h s).mp hs, rfl⟩)
+      obtain ⟨s, hs, rfl⟩ := (authcav_mem_maxValidityDurations cs _).mp hd
+      exact g2 _ ((authcav_mem_maxValidityDurations cs' _).mpr ⟨s, (h s).mp hs, rfl⟩)
     · rcases g3 with g3 | g3
       · exact Or.inl g3
-      · obtain ⟨s, hs, he⟩ := (mem_maxValidityDurations cs' _).mp g3
-        exact Or.inr ((mem_maxValidityDurations cs _).mpr ⟨s, (h s).mpr hs, he⟩)
+      · obtain ⟨s, hs, he⟩ := (authcav_mem_maxValidityDurations cs' _).mp g3
+        exact Or.inr ((authcav_mem_maxValidityDurations cs _).mpr ⟨s, (h s).mpr hs, he⟩)
   have e2 : (getMaxValidity cs).2 = (getMaxValidity cs').2 := by
     rw [getMaxValidity_snd, getMaxValidity_snd, e]
   exact Prod.ext e e2
